@@ -83,10 +83,13 @@ def run(prog, tier, extra=None):
     R3 = res.rule("C17.once", "a used challenge is cleared on every Ok path; issued challenges are fresh random bytes", floor=3)
     R5 = res.rule("C17.index-paired", "a peer record leaves index_to_peers only together with its address_to_peers entry, and is inserted only at a free index", floor=3)
 
+    from ._helpers import helper_closure, root
+    marker_cov = helper_closure(prog, MARKERS)
+    inserter_cov = helper_closure(prog, INSERTERS)
     marks = mark_sites(prog)
     for (b, bb, kind, e) in marks:
         res.instance(R1)
-        if b.path not in MARKERS:
+        if root(b.path) not in marker_cov:
             res.add(Finding(R1, "C17.who-may-mark|%s|%s" % (b.path, kind),
                             "%s %s outside the authenticated handshake handler" % (b.path.split("::", 3)[-1], "sets peer_status = Connected" if kind == "status" else "records a peer public key"),
                             b.loc(bb)))
@@ -97,7 +100,7 @@ def run(prog, tier, extra=None):
         for s in fa.sites(b, "PeerCollection", "address_to_peers"):
             if s[3] in ("insert", "replace", "unknown"):
                 res.instance(R1)
-                if b.path not in INSERTERS:
+                if root(b.path) not in inserter_cov:
                     res.add(Finding(R1, "C17.who-may-mark|%s|address_to_peers" % b.path,
                                     "%s inserts into PeerCollection.address_to_peers outside the handshake completion" % b.path.split("::", 3)[-1], b.loc(s[1])))
     # the Network-level insert happens only after the peer-level handler returned Ok
@@ -109,7 +112,8 @@ def run(prog, tier, extra=None):
         res.add(Finding(R1, "C17.who-may-mark|network|no-await", "Network::handle_handshake_response does not await Peer::handle_handshake_response", nb.loc(0)))
     for s in sites:
         res.instance(R1)
-        found, ex = gate.check_gate(nb, s, gate.make_accept(nb, effects=("std::collections::HashMap::insert", "PeerCollection::remove_reconnected_peer")), prog.units)
+        helper_effects = tuple(sorted(p.split("::", 3)[-1] for p, c in inserter_cov.items() if p != c))
+        found, ex = gate.check_gate(nb, s, gate.make_accept(nb, effects=("std::collections::HashMap::insert", "PeerCollection::remove_reconnected_peer") + helper_effects), prog.units)
         if found:
             kind, path = sorted(found.items())[0]
             res.add(Finding(R1, "C17.who-may-mark|network|err-indexed",
